@@ -4,11 +4,11 @@ from evalutil import *
 
 ID = "C04"
 LEVEL = "proof"
-MODULES = ["H3Proofs.Props.C04"]
+MODULES = ["H3Proofs.Props.C04", "H3Proofs.Props.C04Children"]
 THEOREMS = "auto"
 ASSUMPTIONS = ["hand-written model of cellToParent/cellToChildrenSize/cellToCenterChild/iterInitParent/"
                "iterStepChild tied to the code by the correspondence check (exact list equality, order included)"]
-NOT_PROVED = ["centre coincidence in radians (float) is exercised by the evaluator only"]
+NOT_PROVED = ["centre coincidence in radians (float) is exercised by the evaluator only", "strictly increasing index order of the children list (lexicographic digit order = numeric order) is checked by the evaluator, not yet a theorem", "the loop-faithful iterator model (iterInitParent/iterStepChild) equals the specification-level enumeration: correspondence-tested (both against C), not proved"]
 EXPLANATION = ("hierarchy theorems about the model (error codes, child counts, centre child) + exact "
                "correspondence of children lists with the real iterator; evaluator compares the real library "
                "with an independent python enumeration of the digit tree")
@@ -34,6 +34,7 @@ def streams(rng, tier):
             if c - res == maxdepth and rng.random() < 0.7:
                 continue
             ops.append(f"children {gen.hx(h)} {c}")
+            ops.append(f"childrenS {gen.hx(h)} {c}")      # the specification-level model the theorems are about
     ops2 = []
     for h in cells + [gen.malformed(rng) for _ in range(300)]:
         for r in list(range(-1, 17)) + [rng.choice(gen.EXTREME_INTS)]:
@@ -43,6 +44,7 @@ def streams(rng, tier):
         h = gen.malformed(rng)
         res = (h >> 52) & 15
         ops3.append(f"children {gen.hx(h)} {min(15, res + rng.randrange(0, 4))}")
+        ops3.append(f"childrenS {gen.hx(h)} {min(15, res + rng.randrange(0, 4))}")
         ops3.append(f"ispent {gen.hx(h)}")
     return [("children", ops), ("parent-size-center", ops2), ("children-malformed", ops3)]
 
